@@ -39,6 +39,9 @@ D = {
 "C13": ("C13", "destination is a cropped view with parent rows below it, a SIMD back-end, a horizontal-only resize (dst height = crop height, integer top) of a crop with source rows below it, dst height >= 4: the tail loop of the horizontal kernels writes rows of the larger image below the view",
   "TypedCroppedImageMut::iter_rows_mut limits the rows with take(self.height) instead of take(self.height - start_row)",
   "C13.view-offsets-cropped", "caught by the checks as they stood"),
+"C14": ("C14", "a tall view with num_parts * band_height >= 2^32, more exactly some i <= num_parts with i * height > u32::MAX (a 1 x 70000 image split into 65536 parts; through rayon about 2^28 rows with 16 threads): panic 'attempt to multiply with overflow' (debug) or 'mid > len' in split_at (release); every ordinary size is split correctly",
+  "TypedImageRef::split_by_height, TypedImage::split_by_height and split_by_height_mut compute the part boundaries directly: for i in 1..=num_parts { part_height = start_row + i * height / num_parts - top } with the product in u32",
+  "C14.arith", "C14.count raised a false alarm on the loop shape (1..=num_parts) and the overflow was UNDECIDED; count now compares trip counts as polynomials, C14.arith finds a concrete witness on the guards"),
 "C15": ("C15", "FitIntoDestination with src_width * dst_height or src_height * dst_width >= 2^32 (a (2^22+1) x 1 source into 1024x1024): the u32 cross products wrap, different ratios compare equal and the whole source is returned (release), or resize panics (debug)",
   "ResizeOptions::get_crop_box gets a fast path that returns the full source when src_width * dst_height == src_height * dst_width, computed in u32",
   "C15.arith; C03.arith", "missed by C15 (C03.arith fired); C15.arith added (the overflow rule over the functions that compute the fitted box)"),
